@@ -23,7 +23,8 @@ def match(entries, predicates, sub, label, case):
     holds for the case.  Any other failure of the same property stays a fresh violation.
     """
     for e in entries:
-        if e.get("subcheck") not in (None, sub):
+        subs = e.get("subcheck")
+        if subs is not None and sub not in (subs if isinstance(subs, list) else [subs]):
             continue
         if not re.search(e.get("label_regex", "^$"), label):
             continue
